@@ -82,20 +82,23 @@ def laneSpec (args : List String) : String :=
 
 /-! ### policies -/
 
-def decodePolicy (s : String) : Option (Option Policy) :=
+def decodePolicyDesc (s : String) : Option PolicyDesc :=
   match s.splitOn ":" with
-  | ["nil"] => some none
-  | ["no"] => some (some noRedirectPolicy)
-  | ["samehost"] => some (some sameHostRedirectPolicy)
-  | ["samedomain"] => some (some sameDomainRedirectPolicy)
-  | ["max", n] => (decodeInt n).map fun n => some (maxRedirectPolicy n)
-  | ["ahost", l] => (decodeList l).map fun l => some (allowedHostRedirectPolicy l)
-  | ["adomain", l] => (decodeList l).map fun l => some (allowedDomainRedirectPolicy l)
-  | ["copy", l] => (decodeList l).map fun l => some (alwaysCopyHeaderRedirectPolicy l)
+  | ["nil"] => some .nil
+  | ["no"] => some .no
+  | ["samehost"] => some .sameHost
+  | ["samedomain"] => some .sameDomain
+  | ["max", n] => (decodeInt n).map .max
+  | ["ahost", l] => (decodeList l).map .allowedHost
+  | ["adomain", l] => (decodeList l).map .allowedDomain
+  | ["copy", l] => (decodeList l).map .alwaysCopy
   | _ => none
 
+/-- The lanes evaluate compositions through `PolicyDesc.denote`, the same translation the
+header-flow theorems are stated over. -/
 def decodePolicies (s : String) : Option (List (Option Policy)) :=
-  if s == "-" then some [] else (s.splitOn ";").mapM decodePolicy
+  if s == "-" then some [] else
+    ((s.splitOn ";").mapM decodePolicyDesc).map fun ds => ds.map PolicyDesc.denote
 
 /-- `k1,v1,k2,v2,…` (hex) → map entries in the given order. -/
 def pairUp : List Bytes → Option Headers
